@@ -61,7 +61,7 @@ Ways(e, a) ==
   \cup (IF a.ty = "id" /\ a.req THEN {"empty"} ELSE {})
   \cup (IF a.ty \in {"posnum", "prob", "nat"} THEN {"domain"} ELSE {})
 Unknown(e) == [e |-> e, a |-> "bogus", ty |-> "str", w |-> "unknown"]
-Invalid(m) == m.w # "missing_optional"
+Invalid(m) == m.w \notin {"missing_optional", "add"}
 
 (* ---- named deviations: gama-local is more permissive than the schema (transcribed with tools/survey_attrs.py) ---------- *)
 (* D1: an empty value of these optional attributes is read as if the attribute were absent *)
@@ -82,6 +82,12 @@ One == /\ case.k = 0
             IN /\ (w = "unknown" => i = 1)
                /\ case' = [k |-> 1, muts |-> << m >>, verdict |-> IF Refusing(m) THEN "refused" ELSE "accepted", at |-> IF Refusing(m) THEN Pos(e) ELSE 0,
                               deviation |-> IF Invalid(m) /\ Lenient(m) THEN (IF D1(m) THEN "D1" ELSE IF D2(m) THEN "D2" ELSE "D3") ELSE "none"]
+(* attributes of the documented schema that the base document does not use: adding one with a documented value leaves the document valid *)
+Documented == { <<"parameters", "language", "en">>, <<"parameters", "encoding", "utf-8">>, <<"parameters", "angles", "400">>,
+                <<"network", "epoch", "2021.25">>, <<"pobs", "direction-stdev", "7.5">> }
+AddDocumented == /\ case.k = 0
+                 /\ \E d \in Documented :
+                      case' = [k |-> 1, muts |-> << [e |-> d[1], a |-> d[2], ty |-> d[3], w |-> "add"] >>, verdict |-> "accepted", at |-> 0, deviation |-> "none"]
 (* two corrupted elements: the diagnostic names the first one in document order *)
 Two == /\ case.k = 1 /\ Len(case.muts) = 1
        /\ \E e \in Elems : \E i \in 1..Len(Schema[e]) : \E w \in Ways(e, Schema[e][i]) :
@@ -91,7 +97,7 @@ Two == /\ case.k = 1 /\ Len(case.muts) = 1
                /\ ((Pos(e) * 7 + i * 13 + Len(w) * 3 + Pos(m1.e) * 5 + Len(m1.a) + Seed) % Keep = 0)
                /\ case' = [k |-> 2, muts |-> << m1, m >>, verdict |-> "refused", deviation |-> "none",
                             at |-> IF Refusing(m) /\ Refusing(m1) THEN (IF Pos(e) < Pos(m1.e) THEN Pos(e) ELSE Pos(m1.e)) ELSE IF Refusing(m) THEN Pos(e) ELSE Pos(m1.e)]
-Next == One \/ Two
+Next == One \/ Two \/ AddDocumented
 Spec == Init /\ [][Next]_case
 Emit == case.k > 0 => PrintT("CASE " \o ToJson(case))
 (* the verdict is refused exactly when some mutation is invalid, and then it is located *)
